@@ -15,7 +15,7 @@ from simkit.harness import World
 TIERS = {
     "C04": {"quick": 1200, "thorough": 30000},
     "C11": {"quick": 1200, "thorough": 30000},
-    "C12": {"quick": 2400, "thorough": 80000},
+    "C12": {"quick": 2400, "thorough": 50000},
 }
 LEVEL = {"C04": "fault_enumeration", "C11": "fault_enumeration", "C12": "exploration"}
 RULE = {
